@@ -349,7 +349,11 @@ def c09_batch(ctx: Ctx, texts, seeds, histories=("fresh", "warm")):
             for part in ("states", "py", "c", "jax", "direct", "py_ru"):
                 if a[part] != b[part]:
                     why = "history" if key[0] == base_key[0] else "hashseed"
-                    ctx.violate(f"C09/{why}/{'layout' if part == 'states' else part}",
+                    # a product with a literal zero (`-0*-p`): whether sympy folds `cos(-0*-p)` to 1 depends on what its global
+                    # assumption cache has seen before and on the hash seed (recorded finding); any other dependence has the plain key
+                    import re as _re3
+                    zp = "/zero-product" if (part != "states" and _re3.search(r"(?<![\w.])-?0\*|\*-?0(?![\w.])", text)) else ""
+                    ctx.violate(f"C09/{why}/{'layout' if part == 'states' else part}{zp}",
                                 f"{'slot layout' if part == 'states' else part + ' code'} differs between PYTHONHASHSEED={base_key[0]} ({base_key[1]}) and {key[0]} ({key[1]})"
                                 + (f": {a['states']} vs {b['states']}" if part == "states" else ""),
                                 case={"text": text, "seeds": [base_key[0], key[0]], "history": key[1]})
